@@ -221,6 +221,24 @@ def gen(rng, tier):
     add("hist/lowercase-id", "hist S:l:-:5 PS:c1 T E X LC S:l:-:5 T E RM:c1:c1 T X S:l:-:5 T E")
     add("hist/lowercase-id", "hist S:b,s:-:2 X LC S:b,s:-:2 PS:c1 T X S:b,s1:-:2 T E")
     add("hist/badpin", "hist S:l:-:5 X pin=11111111 S:l:-:5 T pin=00102003 S:l1:-:5 T E")
+    cases += pin_changed(rng, tier)
+    # what the mDNS responder holds follows the pairings: a pairing stored / removed right after a start (the responder is still
+    # probing for its names: the recorded finding) and after the probe (control)
+    cases.append({"id": "adv0", "kind": "hist/advertised-early", "line": "hist S:l:-:5 PS:c1 WT:2600 TA E"})
+    cases.append({"id": "adv1", "kind": "hist/advertised-early", "line": "hist S:l:-:5 PS:c1 X S:l:-:5 RM:c1:c1 WT:2600 TA E"})
+    cases.append({"id": "adv2", "kind": "hist/advertised-late", "line": "hist S:l:-:5 WT:2600 PS:c1 WT:400 TA E RM:c1:c1 WT:400 TA E"})
+    return cases
+
+
+def pin_changed(rng, tier):
+    """the setup code is changed between two runs on the same storage (same process, same device id): only the code of the
+    run at hand pairs; also used by the C02 and C04 checks"""
+    cases = []
+    for i in range(3 if tier == "quick" else 12):
+        p1, p2 = ["%08d" % rng.choice([3145154, 102003, 99999998, 46637726, 20250101, 55512345][j::2]) for j in (0, 1)]
+        first = rng.choice(["PSW:c0:%s" % p1, "PSW:c9:%s" % p2, "PSW:c0:%s E RM:c0:c0" % p1])
+        cases.append({"id": "pinch%d" % i, "kind": "hist/pin-changed", "fam": "hist",
+                      "line": "hist pin=%s S:l:-:5 %s E X pin=%s S:l:-:5 T PSW:c1:%s E PSW:c2:%s T E X pin=%s S:l:-:5 PSW:c3:%s PSW:c4:%s E" % (p1, first, p2, p1, p2, p1, p2, p1)})
     return cases
 
 
@@ -398,6 +416,23 @@ def oracle_hist(c, obs):
             o = nxt("PS")
             if running and o and o.startswith("st2/st4/st6"):
                 ctrls.add(p[1])
+        elif p[0] == "WT":
+            continue
+        elif p[0] == "TA":
+            o = nxt("TA")
+            if running and o:
+                want = "sf%d" % (0 if ctrls else 1)
+                if o != "%s/%s" % (want, want):
+                    return "the mDNS responder holds %s for the service, the transport computed %s, stored controller pairings are %s" % (o.split("/")[0], o.split("/")[-1], sorted(ctrls))
+        elif p[0] == "PSW":
+            o = nxt("PSW")
+            if running and o:
+                if p[2] == pin:
+                    if not o.startswith("st2/st4/st6"):
+                        return "a controller that entered the accessory's setup code %s could not pair: %s" % (pin, o[:60])
+                    ctrls.add(p[1])
+                elif o.startswith("st2/st4/st6") or "st6" in o:
+                    return "a controller that entered %s was paired although the accessory's setup code is %s: %s" % (p[2], pin, o[:60])
         elif p[0] == "PSELF":
             o = nxt("PSELF")
             if running and o and o.startswith("st2/st4/st6"):
@@ -446,7 +481,7 @@ def oracle(c, obs):
 def same(c, g, m):
     # histories with an interrupted start have no model line (the crash point is a run-time notion): the oracle decides,
     # the save order they depend on is covered by C20_interrupted_start_still_increases
-    return g == m or c["kind"] in ("hist/crash", "hist/crash-first")
+    return g == m or c["kind"] in ("hist/crash", "hist/crash-first", "hist/pin-changed", "hist/advertised-early", "hist/advertised-late")
 
 
 def nontrivial(c):
@@ -470,6 +505,8 @@ def classify(c, obs, why):
     # identified by the input: a history in which a controller pairs under the accessory's own device id
     if c["kind"].startswith("hist") and " PSELF" in c["line"]:
         return "C20:controller-named-as-accessory"
+    if c["kind"] == "hist/advertised-early" and why and why.startswith("the mDNS responder holds"):
+        return "C20:pairing-change-while-mdns-probing"
     return None
 
 
